@@ -55,6 +55,53 @@ CLAIMED["C16"] = ("contract-based deductive verification (WP -> SMT) of Simplify
   "float64 arithmetic over the reals; int->float64 exact up to 2^53 (proved applicable at each conversion). Main-loop termination and the exit condition are undecided beyond the bound.",
   "DESIGN.md section 4, C16")
 
+T_WP = "contract-based deductive verification: symbolic execution / weakest preconditions over the typed AST of the real functions, obligations discharged by z3/cvc5"
+CLAIMED["C01"] = (T_WP + " (necessary-condition lemmas only)",
+  "The region statement itself is NOT decided (it needs the sweep's global invariants). Proved for all inputs are the necessary conditions the anchored mechanisms must satisfy, in the property's own vocabulary: "
+  "(1) isContributingClosed returns true exactly when membership in the requested boolean combination (fill rule applied to winding numbers) differs across the edge, for all 4 clip types x 4 fill rules x both path types x all winding values; "
+  "(2) setWindCountForClosedPathEdge hands the winding number over correctly from the nearest edge of the same type (all five branches) and accumulates the other type's winding edge by edge; "
+  "(3) intersectEdges transfers the stored winding counts so that they describe the regions after the two edges swap places (same type / other type, EvenOdd and non-EvenOdd); "
+  "(4) the integer primitives on the 2^29 domain: CrossProduct / dotProduct64 sign-exact without overflow, isCollinear, getSegmentIntersectPt (parallel iff determinant zero, result inside the first segment's box), getDx.",
+  "A green run does not establish the region property; evidence lists the sweep functions that are in the mechanism but not under contract. float-as-real; heap model per struct field; callees without contract are havocked.",
+  "DESIGN.md section 4, C01")
+CLAIMED["C19"] = (T_WP + " (lemma level) plus wrapper contracts over abstract function symbols",
+  "Proved: the boolean table used by the contribution rule satisfies the property's set identities pointwise (Union = disjoint union of Difference(S,C), Intersection, Difference(C,S); Xor = Union minus Intersection; "
+  "Difference = subject minus Intersection; [U]+[I] = [s]+[c]) - so code that meets the contribution rule (C01, same obligation) cannot make the four results disagree where the sweep is otherwise right; "
+  "UnionPaths64(s,f) == BooleanOpPaths64(Union,s,nil,f) and the four WithClip wrappers pass Union/Intersection/Difference/Xor respectively. The area inequalities are not decided.",
+  "BooleanOpPaths64 is an abstract function symbol (determinism by the frame obligations of C17/C18). Area discrepancy bounds undecided.",
+  "DESIGN.md section 4, C19")
+CLAIMED["C09"] = (T_WP + " (lemma level)",
+  "Proved for all inputs: isContributingOpen is exactly the property's sentence (Intersection: inside clip; Union: outside both; Difference/Xor: outside clip, fill rule applied to the winding numbers); "
+  "setWindCountForOpenPathEdge counts, edge by edge, exactly the closed subject edges into the subject winding and the clip edges into the clip winding (open subject edges contribute nothing). "
+  "Coverage of the subject lines, cutting at intersections and emission are not decided.",
+  "Lemma level only; the open/closed intersection branch and emission are listed as not under contract.",
+  "DESIGN.md section 4, C09")
+CLAIMED["C07"] = (T_WP + " with wrapper contracts over abstract function symbols (EUF + arrays)",
+  "Proved for all inputs and all precisions: ScalePathDToPath64 quantises every coordinate to a nearest integer of x*scale, ScalePath64ToPathD multiplies by scale, the Paths variants work path by path; "
+  "checkPrecision / NewClipperD / TrimCollinearD / MinkowskiSumD / MinkowskiDiffD / RectClipPathsD / RectClipLinesPathsD panic exactly when the precision is outside [-8,8]; "
+  "TrimCollinearD, MinkowskiSumD/DiffD, RectClipPathsD, RectClipLinesPathsD equal unscale(1/10^p) o 64-bit operation o scale(10^p) (the 64-bit operations as abstract symbols); NewClipperD wires scale and 1/scale. "
+  "Known findings: ScaleRectD truncates (F8), NewClipperD(0) means precision 2 (F17). Not under contract: BooleanOpPathsD / InflatePathsD / PolyTreeD composition.",
+  "decimal library by assumed contract (exact New/Mul/Float64, Int64(0) = a nearest integer); math.Pow uninterpreted; RectClip64.Execute as a trusted abstract function of (rect, path-extractor, paths).",
+  "DESIGN.md section 4, C07")
+CLAIMED["C08"] = (T_WP + " for the quad construction; the union step is C01",
+  "Proved for all patterns/paths with coordinates up to 2^27: minkowskiInternal returns exactly (len(path) - (closed?0:1)) * len(pattern) quads, each of them the parallelogram {tmp[g][h], tmp[i][h], tmp[i][j], tmp[g][j]} "
+  "(or its reverse) for a path index i with predecessor g (cyclic iff closed) and a pattern index j with cyclic predecessor h, where tmp[i][j] = path[i] +/- pattern[j]; no index out of range, no negative capacity (F3 repaired), no overflow; "
+  "ReversePath reverses; MinkowskiSum64/Diff64 == UnionPaths64(minkowskiInternal(..., true/false, isClosed), NonZero). The union itself and commutativity are not decided.",
+  "The mathematical fact that the union of edge-pair parallelograms is the Minkowski sum is used but not machine-checked. Orientation normalisation: either orientation of a quad is accepted by the contract.",
+  "DESIGN.md section 4, C08")
+CLAIMED["C13"] = (T_WP + "; the advertised range is checked by re-verifying the leaves on the 2^61 domain",
+  "Proved: translation invariance and s^2 scaling of the integer cross/dot products and of the perpendicular distance (lemmas); productsAreEqual/isCollinear exact up to magnitude 2^61 (F14 repaired: integer abs); "
+  "CrossProduct sign-exact and overflow-free up to 2^30; getDx, checkCastInt64 as specified. On the advertised 2^61 domain the overflow obligations of CrossProduct, dotProduct64 and getSegmentIntersectPt FAIL with concrete operands: "
+  "recorded as known finding F13 (the witness is replayed on every run). Region-level invariance of whole operations is not decided.",
+  "Known finding F13 is the substance of this property; the check stays green only because it is recorded with its witnesses.",
+  "DESIGN.md section 4, C13")
+CLAIMED["C03"] = (T_WP + ": safety obligations (index, slice, nil, division, make, panic) for every function in reach; zero-annotation sweep",
+  "No-panic proofs for all inputs (integer arithmetic wraps as in Go): 120 functions discharge every safety obligation with no precondition at all (sweep list in the contracts file), and the functions under functional contract "
+  "(TrimCollinear64, SimplifyPath64/D, getNext/getPrior incl. termination, PointInPolygon, minkowskiInternal, scaling helpers, Area/Bounds, the rectangle-clip wrappers, engine entry points for the idle state) discharge theirs under their stated preconditions; "
+  "checkPrecision-style panics happen exactly when documented. NOT decided: termination and nil-safety of the sweep's list walks, Execute's success flag, the rectangle clipper's state machine and the offset join constructors (listed as not under contract).",
+  "Callees without contract are havocked. Termination is proved only where a decreases clause is listed.",
+  "DESIGN.md section 4, C03")
+
 NOT_APPLICABLE = {
 }
 
